@@ -1,9 +1,8 @@
 (* Model of the queue admission webhook
      pkg/webhooks/admission/queues/validate/validate_queue.go   (AdmitQueues and everything it calls)
      pkg/webhooks/router/indexer.go                             (GetQueuesByParent)
-   as the code is AFTER the fix commit "fix: reject re-parenting a queue under its own
-   descendant and bound the depth of a moved subtree" (docs/notes/C10.md); line numbers are
-   those of the file after that commit.
+   as the code is AFTER the three fix commits 16eeba9, 02b9100, e160f0e (docs/notes/C10.md);
+   line numbers are those of the file after them.
 
    State = the queue set the lister shows (name -> spec).  Names are positives
    (1 = "root", 2 = "default"); a parent is [option positive], None being the
@@ -47,7 +46,7 @@ Inductive verdict :=
 | VAllowed | VSpec | VSelfParent | VDepth | VAncMissing | VParentGet | VParentBusy | VRootProt
 | VParentGone | VCapAncestor | VSiblingSum | VCapChildren | VChildrenSum
 | VDelProtected | VDelMissing | VDelAllocated | VDelChildren
-| VCycle | VSubtreeDepth
+| VCycle | VSubtreeDepth | VRootParent
 | VNotInvoked      (* UPDATE / status update of a queue that does not exist: 404 before admission *)
 | VFuel.           (* fuel of a modelled recursion exhausted: the Go code would not return *)
 
@@ -85,7 +84,7 @@ Definition new_resource (m : rlist) : res :=
   let s : rlist := filter (fun kv => scalar_dim (fst kv) = true) m in
   mkRes (amount m cpu_d) (amount m mem_d) (if bool_decide (s = ∅) then None else Some s).
 
-(* getSingleResource (424-436) *)
+(* getSingleResource (429-441) *)
 Definition rget (r : res) (d : positive) : Z :=
   if bool_decide (d = cpu_d) then cpu r else if bool_decide (d = mem_d) then mem r else sget r d.
 
@@ -104,7 +103,7 @@ Definition children_of (Q : queues) (p : positive) : list (positive * qspec) :=
 Definition is_top (p : option positive) : bool :=
   match p with None => true | Some x => bool_decide (x = root) end.
 
-(* ---------- validateQueueDepth 500-528, queueSubtreeHeight 530-546 (after the fix) ---------- *)
+(* ---------- validateQueueDepth 505-533, queueSubtreeHeight 535-551 (after the fix) ---------- *)
 
 (* [rem] = MaxQueueDepth - depth, the iterations the loop may still take: the
    Go loop increments depth and fails when it exceeds the maximum, so it is
@@ -131,12 +130,13 @@ Fixpoint sub_height (limit : nat) (Q : queues) (n : positive) : nat :=
   | S l => foldr (fun c acc => Nat.max (S (sub_height l Q (fst c))) acc) O (children_of Q n)
   end.
 
-(* validateHierarchicalQueue (373-408) *)
+(* validateHierarchicalQueue (373-413) *)
 Definition validate_hier (c : cfg) (Q : queues) (n : positive) (s : qspec) : verdict :=
   match qparent s with
   | None => VAllowed
   | Some p =>
-    if bool_decide (p = root) then VAllowed
+    if bool_decide (n = root) then VRootParent      (* the root queue cannot have a parent *)
+    else if bool_decide (p = root) then VAllowed
     else if bool_decide (p = n) then VSelfParent
     else match depth_walk (Z.to_nat (max_depth c - 1)) Q n (Some p) with
          | inl v => v
@@ -151,7 +151,7 @@ Definition validate_hier (c : cfg) (Q : queues) (n : positive) (s : qspec) : ver
          end
   end.
 
-(* ---------- hierarchical resources (439-483, 554-708) ---------- *)
+(* ---------- hierarchical resources (444-488, 559-740) ---------- *)
 
 (* findNearestAncestorCapability: None = fuel exhausted, Some None = (0,false) *)
 Fixpoint nearest_cap (fuel : nat) (Q : queues) (parent : option positive) (d : positive) : option (option Z) :=
@@ -198,8 +198,8 @@ Definition sum_check (lim : res) (items : list res) : bool := sum_check_from lim
 Fixpoint first_bad (l : list verdict) : verdict :=
   match l with [] => VAllowed | v :: r => if allowed v then first_bad r else v end.
 
-(* validateChildAgainstAncestor (597-612) *)
-Definition child_vs_ancestor (Q : queues) (s : qspec) : verdict :=
+(* validateChildAgainstAncestor (602-628), first loop: the queue's own capability *)
+Definition child_vs_ancestor_own (Q : queues) (s : qspec) : verdict :=
   let r := new_resource (qcap s) in
   first_bad (map (fun d =>
       match nearest_cap (fuel_of Q) Q (qparent s) d with
@@ -208,14 +208,46 @@ Definition child_vs_ancestor (Q : queues) (s : qspec) : verdict :=
       | Some (Some up) => if bool_decide (up < rget r d) then VCapAncestor else VAllowed
       end) (res_names r)).
 
-(* validateSiblingsSum (616-654); the guarantee and deserved errors are one class *)
+(* collectDescendantCapabilityNames (631-645): None = fuel exhausted *)
+Fixpoint desc_names (fuel : nat) (Q : queues) (n : positive) : option (list positive) :=
+  match fuel with
+  | O => None
+  | S f =>
+    foldr (fun c acc =>
+             match desc_names f Q (fst c), acc with
+             | Some a, Some b => Some (res_names (new_resource (qcap (snd c))) ++ a ++ b)
+             | _, _ => None
+             end) (Some []) (children_of Q n)
+  end.
+
+(* validateChildAgainstAncestor, second loop (after the second fix): the largest capability in
+   the subtree of the queue, for every name some descendant sets *)
+Definition child_vs_ancestor_desc (Q : queues) (n : positive) (s : qspec) : verdict :=
+  match desc_names (fuel_of Q) Q n with
+  | None => VFuel
+  | Some names =>
+    first_bad (map (fun d =>
+        match subtree_max (fuel_of Q) Q n s d, nearest_cap (fuel_of Q) Q (qparent s) d with
+        | Some my, Some (Some up) => if bool_decide (up < my) then VCapAncestor else VAllowed
+        | Some _, Some None => VAllowed
+        | _, _ => VFuel
+        end) names)
+  end.
+
+Definition child_vs_ancestor (Q : queues) (n : positive) (s : qspec) : verdict :=
+  match child_vs_ancestor_own Q s with
+  | VAllowed => child_vs_ancestor_desc Q n s
+  | v => v
+  end.
+
+(* validateSiblingsSum (648-686); the guarantee and deserved errors are one class *)
 Definition siblings_sum (Q : queues) (n : positive) (s ps : qspec) (p : positive) : verdict :=
   let sibs := map snd (filter (fun c => fst c <> n) (children_of Q p)) ++ [s] in
   if sum_check (new_resource (qguar ps)) (map (fun x => new_resource (qguar x)) sibs) &&
      sum_check (new_resource (qdes ps)) (map (fun x => new_resource (qdes x)) sibs)
   then VAllowed else VSiblingSum.
 
-(* validateChildrenConstraints (657-708) *)
+(* validateChildrenConstraints (689-740) *)
 Definition children_constraints (Q : queues) (s : qspec) (kids : list (positive * qspec)) : verdict :=
   let r := new_resource (qcap s) in
   match first_bad (map (fun d =>
@@ -230,8 +262,8 @@ Definition children_constraints (Q : queues) (s : qspec) (kids : list (positive 
   | v => v
   end.
 
-(* validateHierarchicalQueueResources (554-594) *)
-Definition validate_resources (Q : queues) (n : positive) (s : qspec) : verdict :=
+(* validateHierarchicalQueueResources (559-599) *)
+Definition validate_resources_with (cva : verdict) (Q : queues) (n : positive) (s : qspec) : verdict :=
   let v1 :=
     match qparent s with
     | None => VAllowed
@@ -240,7 +272,7 @@ Definition validate_resources (Q : queues) (n : positive) (s : qspec) : verdict 
       else match Q !! p with
            | None => VParentGone
            | Some ps =>
-             match child_vs_ancestor Q s with
+             match cva with
              | VAllowed => siblings_sum Q n s ps p
              | v => v
              end
@@ -255,11 +287,14 @@ Definition validate_resources (Q : queues) (n : positive) (s : qspec) : verdict 
   | v => v
   end.
 
+Definition validate_resources (Q : queues) (n : positive) (s : qspec) : verdict :=
+  validate_resources_with (child_vs_ancestor Q n s) Q n s.
+
 Definition same_resources (a b : qspec) : bool :=
   bool_decide (qcap a = qcap b) && bool_decide (qdes a = qdes b) && bool_decide (qguar a = qguar b).
 
 (* AdmitQueues, CREATE / UPDATE branch (81-116); [old] = None for CREATE *)
-Definition admit_cu (c : cfg) (Q : queues) (n : positive) (s : qspec) (old : option qspec) : verdict :=
+Definition admit_cu_with (res : verdict) (c : cfg) (Q : queues) (n : positive) (s : qspec) (old : option qspec) : verdict :=
   if negb (spec_ok s) then VSpec
   else
     let parent_changed := match old with None => true | Some o => negb (bool_decide (qparent o = qparent s)) end in
@@ -269,9 +304,12 @@ Definition admit_cu (c : cfg) (Q : queues) (n : positive) (s : qspec) (old : opt
       if root_prot c && bool_decide (n = root) && match old with None => false | Some _ => res_changed end
       then VRootProt
       else if negb (bool_decide (n = root)) && (parent_changed || res_changed)   (* needsValidateHierarchicalQueue *)
-           then validate_resources Q n s else VAllowed
+           then res else VAllowed
     | v => v
     end.
+
+Definition admit_cu (c : cfg) (Q : queues) (n : positive) (s : qspec) (old : option qspec) : verdict :=
+  admit_cu_with (validate_resources Q n s) c Q n s old.
 
 (* validateQueueDeleting (295-330) *)
 Definition admit_delete (c : cfg) (Q : queues) (n : positive) : verdict :=
@@ -328,7 +366,12 @@ Definition capacity_ready (Q : queues) : bool :=
   map_allb (fun n s => bool_decide (n = root) ||
                        bool_decide (is_Some (Q !! default root (qparent s)))) Q.
 
-(* ---------- the validation as it was BEFORE the fix (kept for the record) ---------- *)
+(* ---------- the validation as it was BEFORE the fixes (kept for the record) ---------- *)
+
+(* before the second fix validateChildAgainstAncestor had only its first loop *)
+Definition admit_cu_precap (c : cfg) (Q : queues) (n : positive) (s : qspec) (old : option qspec) : verdict :=
+  admit_cu_with (validate_resources_with (child_vs_ancestor_own Q s) Q n s) c Q n s old.
+
 
 Fixpoint depth_walk_prefix (rem : nat) (Q : queues) (parent : option positive) : verdict + nat :=
   match parent with
